@@ -4,7 +4,6 @@ which discharges the `KeyLaws` hypothesis of C01/C14 unconditionally.
 -/
 import AgProofs.Lemmas.F64
 import AgProofs.Lemmas.ValueEq
-import AgProofs.Props.C09order
 
 namespace Ag
 
